@@ -173,6 +173,30 @@ def file_level(kind, blocked, fmax, nrec):
     return h
 
 
+HEXBM_FAMILY = [
+    b'\t\t' + b'0' * 30, b'  ' * 16, b'c0' + b'\n\n' + b'0' * 28, b'C000000000000000' + b'0' * 16, b'c0000000 0000000' + b'0' * 16,
+    b'c' + b' ' + b'0' * 30, b'0x' + b'0' * 30, b'c0' + b'\x00' * 30, b'\xb2' * 32, b'c0' + b'0' * 29 + b'\r', b'+0' * 16, b'c0_0' + b'0' * 28,
+]
+
+
+def hex_bitmap_family(enc):
+    """concrete corner cases of the 32-character hex bitmap (whitespace pairs, upper case, prefixes, control and non-ASCII bytes)"""
+    def h():
+        iso = M().iso8583
+        bm = choose('bitmap', HEXBM_FAMILY)
+        tail = choose('tail', [b'', b'164444555566667777', b'0512345'])
+        data = '1144'.encode(enc) + bm + tail
+        rp = {'kind': 'loads', 'args': {'data': data, 'enc': enc, 'hexbm': True}}
+        with guard('loads', 'C07/exception', rp, allow=(iso.Iso8583DataError,), hang_key='C07/hang'):
+            try:
+                iso.loads(data, encoding=enc, hex_bitmap=True)
+                res = 'dict'
+            except iso.Iso8583DataError:
+                res = 'Iso8583DataError'
+        return {'sample': {'bitmap': bm.decode('latin_1'), 'result': res}, 'replay': rp}
+    return h
+
+
 def tools_catch_only_library_error():
     """syntactic side condition: the CLI wrappers catch exactly MciIpmDataError"""
     out = {}
@@ -229,5 +253,8 @@ def obligations(tier):
             fmax = 2 * 1014 + 30 if blocked else 60
             obs.append(Ob('file/%s/%s' % (kind, 'blocked' if blocked else 'unblocked'), file_level(kind, blocked, fmax, 3), 600,
                           'opaque file of length 0..%d, arbitrary 32-bit length prefixes, up to 3 records' % fmax, _funcs))
+    for enc in ('latin_1', 'cp500'):
+        obs.append(Ob('msg/hex-bitmap-family/%s' % enc, hex_bitmap_family(enc), 60,
+                      'hex bitmap from a concrete family of malformed renderings x three message tails', _funcs))
     obs.append(Ob('cli/catch-clauses', cli_syntax(), 10, 'AST of the three command line wrappers', lambda: []))
     return obs
